@@ -183,6 +183,14 @@ def classify_while(fi, loop: ast.While) -> LoopInfo:
         x = test.comparators[0].id
         if any(isinstance(c, ast.Call) and isinstance(c.func, ast.Attribute) and c.func.attr in ("pop", "remove") and isinstance(c.func.value, ast.Name) and c.func.value.id == x for c in ast.walk(loop)):
             return LoopInfo(fi, loop, "container-shrink", f"`{seg(test, 40)}` with {x}.pop/remove in the body", True)
+    # 6b. the same with the handler inside the loop: while True: try: self.mutator(...) except E: break / return
+    if const_true and len(body) == 1 and isinstance(body[0], ast.Try) and not body[0].finalbody and not body[0].orelse:
+        tr = body[0]
+        tcalls = [s for s in tr.body if isinstance(s, ast.Expr) and isinstance(s.value, ast.Call)]
+        in_handlers = {id(x) for h in tr.handlers for s in h.body for x in ast.walk(s)}
+        leave = all(h.body and isinstance(h.body[-1], (ast.Break, ast.Return)) for h in tr.handlers)
+        if tcalls and len(tcalls) == len(tr.body) and tr.handlers and leave and all(id(e) in in_handlers for e in exits):
+            return LoopInfo(fi, loop, "shrink-until-refused", f"`{seg(tcalls[0], 50)}` repeated until it raises (handler inside the loop)", True)
     # 6. shrink until refused: while True: self.mutator(...) — the only way out is an exception
     if const_true and not exits:
         calls = [s for s in body if isinstance(s, ast.Expr) and isinstance(s.value, ast.Call)]
